@@ -299,7 +299,7 @@ class C04(Spec):
             "virtual instants, loaders with scripted durations/results; all ten key kinds; P,J,En,Ee varied), or one "
             "GetShardingIndex / convertPowerOfTwo call, or one stress line (real goroutines racing on one key). Compared "
             "(monitor mode): every call/return/loader event with its virtual time, identity of returned futures, returned pairs. "
-            "non-trivial = at least two Loads of one key, or a pure line Round-2 classes: loaders running 20..100 x En (5..25 sweep ticks) with repeated Loads/Get2 of the key meanwhile; 130..1000 keys of one shard around a sweep tick.")
+            "non-trivial = at least two Loads of one key, or a pure line Round-2 classes: loaders running 20..100 x En (5..25 sweep ticks) with repeated Loads/Get2 of the key meanwhile; 130..1000 keys of one shard around a sweep tick. Round-4: hash-colliding string keys (distinct equal-length strings colliding under FNV-1a-32 / the repo's fnv32 / CRC-32 / low 16 bits, same shard, lengths 8..200) used as the keys of one story; dependent (nested) loaders.")
     trusted_base = CACHE_TRUSTED
     assumptions = ["loaders are functions of the scenario script (duration, result)", "Go int is 64 bit",
                    "convertPowerOfTwo: argument <= 2^62 (the Go loop diverges above)"]
